@@ -442,7 +442,7 @@ fn draws_tests(rep: &mut Report, sig: &str, mon: &str, case: u64, cfg: &serde_js
     rep.count_n(&format!("hooked_draws[{name}]"), xs.len() as u64);
     rep.max("hooked_draws_max_abs_z", z1.abs().max(z2.abs()).max(lag1.abs()));
     rep.max("hooked_draws_max_ks", ks);
-    if z1.abs() > 6.5 || z2.abs() > 6.5 || lag1.abs() > 6.5 || ks > 2.6 {
+    if z1.abs() > 6.5 || z2.abs() > 6.5 || lag1.abs() > 6.5 || ks > 3.6 {
         rep.violation(&format!("{sig} draw-stream-has-wrong-distribution: {name} should be {kind}"), mon, case,
             json!({"cfg": cfg, "n": xs.len(), "z_mean": z1, "z_var": z2, "z_lag1": lag1, "ks": ks}));
         return false;
